@@ -25,7 +25,7 @@ afterwards several processes block again, so that the awaitable tags that were f
 import random
 
 SIGS = [-2, -5, -4, -7, 3, 11]          # interrupt / timer / resume signals (never 0 = SUCCESS)
-PROFILES = ["resource", "pool", "buffer", "oq", "pq", "cond", "lifecycle", "timers", "mixed", "crowd", "record", "poolprio", "condcrowd", "condfwd", "evgrow", "prioq", "record2", "pqreprio", "poolleft", "longrec", "timerso"]
+PROFILES = ["resource", "pool", "buffer", "oq", "pq", "cond", "lifecycle", "timers", "mixed", "crowd", "record", "poolprio", "condcrowd", "condfwd", "evgrow", "prioq", "record2", "pqreprio", "poolleft", "longrec", "timerso", "coincide", "qdrain"]
 
 
 def gen_scenario(rng, profile=None, size=None, exclude=frozenset()):
@@ -243,6 +243,80 @@ def gen_scenario(rng, profile=None, size=None, exclude=frozenset()):
                 cmds.append("prel 1 1")
             out += ["proc %d 1 %d" % (rng.randint(0, 3), len(cmds))] + cmds
         return out, {"profile": profile, "procs": 2, "lines": len(out)}
+    if profile == "coincide":
+        # same-instant coincidences, systematically: a waiter arms a timer d, enters a blocking call and blocks again afterwards;
+        # an actor that runs earlier in that instant (higher priority) causes, at exactly t = d, what the waiter waits for - or
+        # stops / interrupts / resumes it - in the normal and in the abnormal way (exit vs stop, release vs end while holding,
+        # signal vs cancel); a bystander makes the later blocking calls observable (a stale wake-up cuts them short)
+        d = rng.randint(1, 3)
+        out = ["res", "pool 3", "buf 2", "oq 1", "cond"]
+        if rng.random() < 0.3:
+            out.append("sub 0 0 0 0")
+        what = rng.choice(["waitp", "acq", "pacq", "bget", "oget", "oput", "cwait", "waite", "hold"])
+        sig = rng.choice([-5, -5, 3, 11, -7])
+        wprio, aprio = rng.randint(0, 4), rng.randint(5, 9)
+        call = {"waitp": "waitp 2", "acq": "acq 0", "pacq": "pacq 0 2", "bget": "bget 0 1", "oget": "oget 0", "oput": "oput 0 5",
+                "cwait": "cwait 0 0 1 0", "waite": "waite 8", "hold": "hold %d" % (d + rng.randint(0, 2))}[what]
+        waiter = ["tadd 0 %d %d" % (d, sig), call, "hold 2", rng.choice(["hold 1", "acq 0", "waitp 2", "bget 0 1", "cwait 0 0 0 0"]), "hold 1"]
+        if what == "oput":
+            waiter = ["oput 0 4"] + waiter            # fill the queue first so that the put blocks
+        if rng.random() < 0.3:
+            waiter = waiter[:1] + ["tadd 1 %d %d" % (d, rng.choice([-5, 3]))] + waiter[1:]
+        cause = {"waitp": ["stop 2 7", "stop 2 7", "resume 2 -7"], "acq": ["rel 0", "exit 3", "stop 0 1"],
+                 "pacq": ["prel 0 2", "prel 0 1", "exit 3"], "bget": ["bput 0 1", "bput 0 2"], "oget": ["oput 0 9"],
+                 "oput": ["oget 0"], "cwait": ["flag 1 1", "csig 0", "ccancel 0 0", "cremove 0 0"],
+                 "waite": ["ucancel 8", "upcancel"], "hold": ["intr 0 -2 %d" % rng.randint(0, 9), "resume 0 -7", "stop 0 4"]}[what]
+        actor = []
+        if what == "acq":
+            actor += ["acq 0"]
+        if what == "pacq":
+            actor += ["pacq 0 3"]
+        if what == "waite":
+            actor += ["usched 8 %d 0" % (d + rng.randint(0, 3))]
+        actor += ["hold %d" % d]
+        actor += [rng.choice(cause)]
+        if what == "cwait":
+            actor += ["csig 0"]
+        if rng.random() < 0.5:
+            actor += [rng.choice(["stop 0 5", "intr 0 -2 %d" % rng.randint(0, 9), "resume 0 -7", "prio 0 %d" % rng.randint(0, 9), "tclearo 0",
+                                  "csig 0", "rel 0", "hold 0"])]
+        actor += ["hold 3", "rel 0", "prel 0 3", "hold 5"]
+        third = ["hold %d" % (d + rng.choice([0, 0, 1])), rng.choice(["exit 2", "hold 4", "acq 0", "oget 0", "bput 0 1", "stop 0 6", "stop 1 6"]), "hold 2"]
+        procs = [(wprio, waiter), (aprio, actor), (rng.randint(0, 9), third)]
+        if rng.random() < 0.4:
+            procs.append((rng.randint(0, 9), ["hold %d" % rng.randint(0, d), rng.choice(["acq 0", "pacq 0 1", "bget 0 1", "oget 0", "waitp 0", "cwait 0 0 1 0"]), "hold 1", "rel 0"]))
+        for pr, c in procs:
+            out += ["proc %d 1 %d" % (pr, len(c))] + c
+        return out, {"profile": profile, "procs": len(procs), "lines": len(out)}
+    if profile == "qdrain":
+        # several producers blocked on a small full queue / buffer (or consumers on an empty one) and one process that gets
+        # (puts) several times in a row without yielding: grants of one instant overtaken by further state changes
+        kind = rng.choice(["oq", "oq", "pq", "buf"])
+        cap = rng.randint(1, 3)
+        out = ["%s %d" % (kind, cap)]
+        put = {"oq": "oput 0 %d", "pq": "kput 0 %d " + "%d %d" % (rng.randint(0, 3), 4), "buf": "bput 0 %d"}[kind]
+        get = {"oq": "oget 0", "pq": "kget 0", "buf": "bget 0 1"}[kind]
+        procs = []
+        side = rng.choice(["putters", "putters", "getters"])
+        n = rng.randint(2, 5)
+        if side == "putters":
+            procs.append((rng.randint(0, 3), [put % (10 + j) if kind != "buf" else "bput 0 1" for j in range(cap)] + ["hold 9"]))
+            for j in range(n):
+                procs.append((rng.randint(0, 5), ["hold %d" % rng.randint(0, 1), (put % (20 + j)) if kind != "buf" else "bput 0 %d" % rng.randint(1, 2), "hold 1"]))
+            drain = ["hold 2"] + [get] * rng.randint(2, n + 1) + ["hold 1"] + [get] * rng.randint(0, 2)
+            procs.append((rng.randint(0, 9), drain))
+            if rng.random() < 0.4:
+                procs.append((rng.randint(0, 9), ["hold 2", get, get]))
+        else:
+            for j in range(n):
+                procs.append((rng.randint(0, 5), ["hold %d" % rng.randint(0, 1), get, "hold 1"]))
+            fill = ["hold 2"] + [(put % (30 + j)) if kind != "buf" else "bput 0 1" for j in range(rng.randint(2, n + 1))] + ["hold 1"]
+            procs.append((rng.randint(0, 9), fill))
+        if rng.random() < 0.3:
+            procs.append((rng.randint(6, 9), ["hold 2", rng.choice(["stop 1 3", "intr 1 -2 5", "intr 2 -2 0", "prio 1 %d" % rng.randint(0, 9)])]))
+        for pr, c in procs:
+            out += ["proc %d 1 %d" % (pr, len(c))] + c
+        return out, {"profile": profile, "procs": len(procs), "lines": len(out)}
     if profile == "longrec":
         # one recorded object driven through many changes by one process: histories that cross the growth thresholds of the
         # history arrays (1024 samples), values that repeat (a sample equal to the running mean), changes in the same instant
